@@ -40,11 +40,18 @@ Leaf == [k : {"leaf"}, t : Types]
 \* the operand TYPES only, so the table is the same -- an analysis that special-cases empty containers must not differ
 Sized(t) == t \in {"str", "list", "tuple"}
 Cell == {c \in [k : {"bin"}, op : BinOps \cup CmpOps, l : Types, r : Types, ls : Shapes, rs : Shapes] :
-            (c.ls = "empty" => Sized(c.l)) /\ (c.rs = "empty" => Sized(c.r))}
+            /\ (c.ls = "empty" => Sized(c.l)) /\ (c.rs = "empty" => Sized(c.r))
+            /\ (c.ls = "neg" => c.l \in {"int", "float"}) /\ (c.rs = "neg" => c.r \in {"int", "float"})}
+\* "neg": a negative number.  Where the VALUE of an operand changes CPython's outcome for the same operand types: a
+\* negative integer exponent gives a float, a negative shift count is a ValueError
+PyS(op, l, r, ls, rs) ==
+    IF op = "**" /\ l \in {"int", "bool"} /\ r = "int" /\ rs = "neg" THEN "float"
+    ELSE IF op \in {"<<", ">>"} /\ r = "int" /\ rs = "neg" THEN "valuedep"
+    ELSE Py(op, l, r)
 \* depth 2: (l op1 r) op2 c   and   c op2 (l op1 r), with an arithmetic inner operator
 Tree2 == IF Depth2 THEN [k : {"left2", "right2"}, op1 : BinOps, op2 : BinOps \cup CmpOps, l : Types, r : Types, c : Types] ELSE {}
 
-TypeOf(x) == CASE x.k = "bin" -> Py(x.op, x.l, x.r)
+TypeOf(x) == CASE x.k = "bin" -> PyS(x.op, x.l, x.r, x.ls, x.rs)
                [] x.k = "left2" -> (LET inner == Py(x.op1, x.l, x.r) IN
                                     IF inner \in {"err", "valuedep"} THEN inner ELSE Py(x.op2, inner, x.c))
                [] x.k = "right2" -> (LET inner == Py(x.op1, x.l, x.r) IN
